@@ -9,8 +9,10 @@ verus! {
 //@enum BSVErrors @ src/errors/mod.rs
 //@enum SigningHash @ src/ecdsa/mod.rs clone copy partialeq eq
 //@include shims/asref.rs
+//@include shims/codecs.rs
 //@include shims/k256.rs
 //@include shims/ecdsa_ops.rs
+//@include shims/ga32.rs
 // digest trait bundle required by sign_preimage_deterministic_k (the real bound list, as shim traits)
 pub mod digest { pub mod consts { pub struct U32; } pub use super::BlockInput; pub use super::Reset; pub use super::Update; }
 pub trait BlockInput {} pub trait Reset {} pub trait Update {}
@@ -50,6 +52,8 @@ impl ECDSA {
 //@fn ECDSA::sign_with_random_k_impl
 //@fn ECDSA::verify_digest_impl
 //@fn ECDSA::verify_hashbuf_impl
+//@fn ECDSA::verify_hashbuf
+//@fn ECDSA::sign_digest_with_deterministic_k
 }
 pub struct ECDH {}
 impl ECDH {
